@@ -161,7 +161,7 @@ class Ctx:
         if self.machinery_errors:
             for e in self.machinery_errors:
                 print('MACHINERY-ERROR: %s' % e)
-        for what, path, found in self.violations[:10]:
+        for what, path, found in sorted(self.violations, key=lambda v: not v[2])[:10]:   # failing inputs first
             print('VIOLATION property=%s replay=%s%s' % (self.pid, path, '' if found else ' no-failing-input-found'))
             print('  ' + what[:400])
         print('%s %s: %d evaluations, %d obligations (%d discharged), %d violations, %.1fs' % (
